@@ -1509,6 +1509,19 @@ class BaseInterpreter(Generic[TContext, TEvent]):
             )
         registry[system_id] = actor
 
+    def _unregister_from_system(self) -> None:
+        """Drops every `system_id` under which this actor is registered.
+
+        Called from `stop()`. A stopped actor that stays in the registry is
+        still resolvable by `sendTo(systemId)`, which then silently drops the
+        event, and `system.get_all()` keeps reporting actors that no longer
+        exist.
+        """
+        registry = self._system_registry()
+        for system_id, actor in list(registry.items()):
+            if actor is self:
+                del registry[system_id]
+
     def _resolve_delay(self, spec: Any, event: Any) -> Optional[float]:
         """Resolves a delay specification to milliseconds.
 
